@@ -18,18 +18,10 @@ theorem body_mkPacket (pt ts ssrc mark seq : Nat) (payload : Bytes) :
     (mkPacket pt ts ssrc mark seq payload).body = .ok payload := by
   simp [RtpPacket.body, mkPacket, makeRtpPacket, defaultHeader, from?, packTo_length]
 
-theorem toU32_tdiv_nat (rate : Nat) (hr : rate < 4294967296000) : toU32 ((rate : Int).tdiv 1000) = rate / 1000 := by
-  unfold toU32
-  have h0 : (rate : Int).tdiv 1000 = ((rate / 1000 : Nat) : Int) := by
-    rw [Int.tdiv_eq_ediv_of_nonneg (by omega)]; rfl
-  rw [h0]
-  have h1 : ((rate / 1000 : Nat) : Int) % 4294967296 = ((rate / 1000 : Nat) : Int) := by omega
-  rw [h1]; rfl
-
-theorem tsMs_ok (rate ts : Nat) (hr : 1000 ≤ rate ∧ rate < 4294967296000) : tsMs rate ts = .ok (ts / (rate / 1000)) := by
-  unfold tsMs
-  simp only [toU32_tdiv_nat rate hr.2]
+theorem tsMs_ok (rate ts : Nat) (hr : 1000 ≤ rate ∧ rate < 4294967296000) : tsMs rate ts = .ok (msOf rate ts) := by
+  unfold tsMs msOf
   rw [if_neg (by omega)]
+  simp only [Int.toNat_natCast]
 
 theorem calcAvc_single (p : RtpPacket) (b0 : UInt8) (r : Bytes) (hb : p.body = .ok (b0 :: r)) (ht : b0.toNat % 32 ≤ 23) :
     calcPositionAvc p = .ok { p with pos := 1 } := by
@@ -247,7 +239,7 @@ end fu
 theorem try_single (hevc : Bool) (rate : Nat) (p : RtpPacket) (T : List RtpPacket) (b : Bytes)
     (hr : 1000 ≤ rate ∧ rate < 4294967296000) (hp : p.pos = 1) (hb : p.body = .ok b) :
     tryUnpackOneAvcHevc hevc rate (p :: T) =
-      .ok (some ⟨[{ ts := p.hdr.timestamp / (rate / 1000), payload := be32 b.length ++ b }], p.hdr.seq, T, 1⟩) := by
+      .ok (some ⟨[{ ts := msOf rate p.hdr.timestamp, payload := be32 b.length ++ b }], p.hdr.seq, T, 1⟩) := by
   simp [tryUnpackOneAvcHevc, hp, hb, tsMs_ok rate _ hr, bind, Except.bind, pure, Except.pure]
 
 theorem try_fu_avc (rate : Nat) (first : RtpPacket) (more T : List RtpPacket) (ind fh : UInt8) (fr data : Bytes)
@@ -256,7 +248,7 @@ theorem try_fu_avc (rate : Nat) (first : RtpPacket) (more T : List RtpPacket) (i
     (hfb : first.body = .ok (ind :: fh :: fr))
     (hdata : fuBodies 2 (first :: more) = .ok data) :
     tryUnpackOneAvcHevc false rate (first :: (more ++ T)) =
-      .ok (some ⟨[{ ts := (more.getLastD first).hdr.timestamp / (rate / 1000),
+      .ok (some ⟨[{ ts := msOf rate (more.getLastD first).hdr.timestamp,
                     payload := be32 (1 + data.length) ++ [b8 (ind.toNat / 32 * 32 + fh.toNat % 32)] ++ data }],
                  (more.getLastD first).hdr.seq, T, 1 + more.length⟩) := by
   have hd : fuBodies 2 (first :: more) = .ok data := hdata
@@ -269,7 +261,7 @@ theorem try_fu_hevc (rate : Nat) (first : RtpPacket) (more T : List RtpPacket) (
     (hfb : first.body = .ok (p0 :: p1 :: fh :: fr))
     (hdata : fuBodies 3 (first :: more) = .ok data) :
     tryUnpackOneAvcHevc true rate (first :: (more ++ T)) =
-      .ok (some ⟨[{ ts := (more.getLastD first).hdr.timestamp / (rate / 1000),
+      .ok (some ⟨[{ ts := msOf rate (more.getLastD first).hdr.timestamp,
                     payload := be32 (2 + data.length) ++ [b8 (p0.toNat / 128 * 128 + p0.toNat % 2 + fh.toNat % 64 * 2), p1] ++ data }],
                  (more.getLastD first).hdr.seq, T, 1 + more.length⟩) := by
   have hd : fuBodies 3 (first :: more) = .ok data := hdata
@@ -364,7 +356,7 @@ theorem fu_a1_avc (rate pt ts ssrc maxSize seq : Nat) (h n1 : UInt8) (t : Bytes)
     (hs : seq < 65536) (hF : h.toNat < 128) (h1 : ¬ (h :: t).length ≤ maxSize) (hm : 2 < maxSize) (T : List RtpPacket) :
     tryUnpackOneAvcHevc false rate
         ((packLoop pt ts ssrc seq (fuLoop false h n1 (maxSize - 2) (t.length + 1) true t)).map (posOf (protoAvcHevc false rate)) ++ T)
-      = .ok (some ⟨[{ ts := ts / (rate / 1000), payload := be32 (t.length + 1) ++ h :: t }],
+      = .ok (some ⟨[{ ts := msOf rate ts, payload := be32 (t.length + 1) ++ h :: t }],
                    (seq + (packLoop pt ts ssrc seq (fuLoop false h n1 (maxSize - 2) (t.length + 1) true t)).length - 1) % 65536, T,
                    (packLoop pt ts ssrc seq (fuLoop false h n1 (maxSize - 2) (t.length + 1) true t)).length⟩) := by
   have hl : t.length > maxSize - 2 := by simp at h1; omega
@@ -397,7 +389,7 @@ theorem fu_a1_hevc (rate pt ts ssrc maxSize seq : Nat) (h0 h1' : UInt8) (t : Byt
     (hs : seq < 65536) (h1 : ¬ (h0 :: h1' :: t).length ≤ maxSize) (hm : 3 < maxSize) (T : List RtpPacket) :
     tryUnpackOneAvcHevc true rate
         ((packLoop pt ts ssrc seq (fuLoop true h0 h1' (maxSize - 3) (t.length + 1 + 1) true t)).map (posOf (protoAvcHevc true rate)) ++ T)
-      = .ok (some ⟨[{ ts := ts / (rate / 1000), payload := be32 (t.length + 1 + 1) ++ h0 :: h1' :: t }],
+      = .ok (some ⟨[{ ts := msOf rate ts, payload := be32 (t.length + 1 + 1) ++ h0 :: h1' :: t }],
                    (seq + (packLoop pt ts ssrc seq (fuLoop true h0 h1' (maxSize - 3) (t.length + 1 + 1) true t)).length - 1) % 65536, T,
                    (packLoop pt ts ssrc seq (fuLoop true h0 h1' (maxSize - 3) (t.length + 1 + 1) true t)).length⟩) := by
   have hx := h0.toNat_lt
@@ -454,7 +446,7 @@ theorem fu_a2 (hevc : Bool) (rate pt ts ssrc seq chunk : Nat) (n0 n1 : UInt8) (k
 theorem unit_video (hevc : Bool) (rate pt ssrc maxSize seq ts : Nat) (nal : Bytes)
     (hr : 1000 ≤ rate ∧ rate < 4294967296000) (hs : seq < 65536) (hwf : NalWF hevc nal maxSize) :
     UnitFacts (protoAvcHevc hevc rate) (packLoop pt ts ssrc seq (nalPayloads hevc nal maxSize)) seq
-      [{ ts := ts / (rate / 1000), payload := be32 nal.length ++ nal }] := by
+      [{ ts := msOf rate ts, payload := be32 nal.length ++ nal }] := by
   have hlen : 1 ≤ (packLoop pt ts ssrc seq (nalPayloads hevc nal maxSize)).length := by
     rw [packLoop_length]; unfold nalPayloads
     by_cases h1 : nal.length ≤ maxSize
@@ -601,21 +593,21 @@ theorem try_aac_single (rate : Nat) (p : RtpPacket) (T : List RtpPacket) (a b : 
     (hr : 1000 ≤ rate ∧ rate < 4294967296000) (hb : p.body = .ok (0 :: 16 :: a :: b :: frame))
     (hsz : (a.toNat * 256 + b.toNat / 8 * 8) / 8 = frame.length) :
     tryUnpackOneAac rate (p :: T) =
-      .ok (some ⟨[{ ts := p.hdr.timestamp / (rate / 1000), payload := frame }], p.hdr.seq, T, 1⟩) := by
+      .ok (some ⟨[{ ts := msOf rate p.hdr.timestamp, payload := frame }], p.hdr.seq, T, 1⟩) := by
   simp only [tryUnpackOneAac, hb, bind, Except.bind, parseAu_single, hsz]
   simp [from?, tsMs_ok rate _ hr, pure, Except.pure]
 
 theorem try_raw (rate : Nat) (p : RtpPacket) (T : List RtpPacket) (frame : Bytes)
     (hr : 1000 ≤ rate ∧ rate < 4294967296000) (hb : p.body = .ok frame) :
     tryUnpackOneRaw rate (p :: T) =
-      .ok (some ⟨[{ ts := p.hdr.timestamp / (rate / 1000), payload := frame }], p.hdr.seq, T, 1⟩) := by
+      .ok (some ⟨[{ ts := msOf rate p.hdr.timestamp, payload := frame }], p.hdr.seq, T, 1⟩) := by
   simp only [tryUnpackOneRaw, hb, bind, Except.bind, tsMs_ok rate _ hr]
   simp [pure, Except.pure]
 
 theorem unit_aac (rate pt ssrc maxSize seq ts : Nat) (frame : Bytes) (hr : 1000 ≤ rate ∧ rate < 4294967296000)
     (hs : seq < 65536) (h0 : 0 < frame.length) (hl : frame.length < 8192) (hm : 0 < maxSize) :
     UnitFacts (protoAac rate) (packLoop pt ts ssrc seq (aacPack frame maxSize)) seq
-      [{ ts := ts / (rate / 1000), payload := frame }] := by
+      [{ ts := msOf rate ts, payload := frame }] := by
   have hne : frame ≠ [] := by intro e; subst e; simp at h0
   have hp : aacPack frame maxSize = [[0, 16, b8 (frame.length / 32), b8 (frame.length % 32 * 8)] ++ frame] := by
     unfold aacPack; rw [if_neg (by simp [hne]; omega)]
@@ -630,7 +622,7 @@ theorem unit_aac (rate pt ssrc maxSize seq ts : Nat) (frame : Bytes) (hr : 1000 
 theorem unit_raw (rate pt ssrc maxSize seq ts : Nat) (frame : Bytes) (hr : 1000 ≤ rate ∧ rate < 4294967296000)
     (hs : seq < 65536) (h0 : 0 < frame.length) (hm : 0 < maxSize) :
     UnitFacts (protoRaw rate) (packLoop pt ts ssrc seq (rawPack frame maxSize)) seq
-      [{ ts := ts / (rate / 1000), payload := frame }] := by
+      [{ ts := msOf rate ts, payload := frame }] := by
   have hne : frame ≠ [] := by intro e; subst e; simp at h0
   have hp : rawPack frame maxSize = [frame] := by
     unfold rawPack; rw [if_neg (by simp [hne]; omega)]
